@@ -1,1 +1,308 @@
-fn main() { println!("hello"); }
+//! flacsim — deterministic simulation worker.
+//!
+//!   flacsim run    <prop> <scenario> <tier> <seed> <from> <count> <fpfile> [--trace-runs]
+//!   flacsim replay <prop> <scenario> <tier> <choices-file>          (prints trace + verdict)
+//!   flacsim shrink <prop> <scenario> <tier> <choices-file> <budget> (prints minimised choices)
+//!   flacsim merge-fp <files...>                                     (prints distinct count)
+//!
+//! One process = one thread = one deterministic execution per run.
+
+#![allow(dead_code)]
+mod core;
+mod disk;
+mod genr;
+mod minimize;
+mod monitor;
+mod refflac;
+mod rng;
+mod scen_c17;
+mod scen_rt;
+mod world;
+
+use crate::core::*;
+use crate::rng::{Choices, hash_str, mix};
+use std::collections::HashSet;
+use std::io::Write;
+use std::panic::{AssertUnwindSafe, catch_unwind};
+
+#[global_allocator]
+static ALLOC: monitor::CountingAlloc = monitor::CountingAlloc;
+
+pub type Scenario = fn(&mut Ctx) -> R;
+
+pub fn lookup(scen: &str) -> Option<Scenario> {
+    Some(match scen {
+        "rt" => scen_rt::run,
+        _ => return None,
+    })
+}
+
+pub struct RunResult {
+    pub violation: Option<Violation>,
+    pub choices: Vec<u64>,
+    pub evals: Vec<(u64, bool)>,
+    pub sample: Option<String>,
+    pub trace: Vec<String>,
+    pub events: u64,
+    pub foreign: Option<String>,
+    pub labelled: Vec<(&'static str, u64, u64)>,
+}
+
+pub fn classify_panic(loc: &str, msg: &str) -> Violation {
+    if msg.starts_with(disk::HANG_MSG) {
+        Violation {
+            class: "hang".into(),
+            msg: msg.to_string(),
+        }
+    } else if loc.starts_with("sim/src/") && !msg.starts_with("harness: consume") {
+        Violation {
+            class: format!("HARNESS-PANIC@{loc}"),
+            msg: msg.to_string(),
+        }
+    } else {
+        Violation {
+            class: format!("panic@{loc}"),
+            msg: msg.to_string(),
+        }
+    }
+}
+
+pub fn execute(prop: &str, scen: Scenario, tier: Tier, ch: Choices, trace: bool, want_sample: bool, run: u64) -> RunResult {
+    let mut ctx = Ctx::new(prop, tier, ch.clone(), trace, run);
+    ctx.want_sample = want_sample;
+    let _ = monitor::take_panic();
+    let r = catch_unwind(AssertUnwindSafe(|| scen(&mut ctx)));
+    let violation = match r {
+        Ok(Ok(())) => None,
+        Ok(Err(v)) => Some(v),
+        Err(_) => {
+            let (loc, msg) = monitor::take_panic().unwrap_or(("?".into(), "?".into()));
+            Some(classify_panic(&loc, &msg))
+        }
+    };
+    if violation.is_some() && ctx.evals.is_empty() {
+        ctx.eval(0, true);
+    }
+    RunResult {
+        violation,
+        choices: ch.values(),
+        evals: std::mem::take(&mut ctx.evals),
+        sample: ctx.sample.take(),
+        trace: ctx.disk.take_trace(),
+        events: ctx.disk.seq(),
+        foreign: ctx.foreign.take(),
+        labelled: if trace { ch.labelled() } else { Vec::new() },
+    }
+}
+
+pub fn run_seed(seed: u64, prop: &str, scen_name: &str, run: u64) -> u64 {
+    mix(mix(mix(seed, hash_str(prop)), hash_str(scen_name)), run)
+}
+
+fn parse_tier(s: &str) -> Tier {
+    if s == "thorough" { Tier::Thorough } else { Tier::Quick }
+}
+
+fn read_choices(path: &str) -> Vec<u64> {
+    let s = std::fs::read_to_string(path).expect("choices file");
+    s.split(|c: char| !c.is_ascii_digit())
+        .filter(|t| !t.is_empty())
+        .map(|t| t.parse::<u64>().unwrap())
+        .collect()
+}
+
+fn fmt_choices(v: &[u64]) -> String {
+    let mut s = String::new();
+    for (i, x) in v.iter().enumerate() {
+        if i > 0 {
+            s.push(',');
+        }
+        s.push_str(&x.to_string());
+    }
+    s
+}
+
+fn main() {
+    let args: Vec<String> = std::env::args().collect();
+    if args.len() < 2 {
+        eprintln!("usage: flacsim run|replay|shrink|merge-fp ...");
+        std::process::exit(2);
+    }
+    monitor::install_panic_hook();
+    match args[1].as_str() {
+        "run" => cmd_run(&args[2..]),
+        "replay" => cmd_replay(&args[2..]),
+        "replay-gen" => cmd_replay_gen(&args[2..]),
+        "shrink" => cmd_shrink(&args[2..]),
+        "merge-fp" => cmd_merge(&args[2..]),
+        _ => {
+            eprintln!("unknown command");
+            std::process::exit(2);
+        }
+    }
+}
+
+fn cmd_merge(files: &[String]) {
+    let mut all: Vec<u64> = Vec::new();
+    for f in files {
+        if let Ok(b) = std::fs::read(f) {
+            for c in b.chunks_exact(8) {
+                all.push(u64::from_le_bytes(c.try_into().unwrap()));
+            }
+        }
+    }
+    all.sort_unstable();
+    all.dedup();
+    println!("{}", all.len());
+}
+
+fn cmd_run(a: &[String]) {
+    let prop = &a[0];
+    let scen_name = &a[1];
+    let tier = parse_tier(&a[2]);
+    let seed: u64 = a[3].parse().unwrap();
+    let from: u64 = a[4].parse().unwrap();
+    let count: u64 = a[5].parse().unwrap();
+    let fpfile = &a[6];
+    let trace_runs = a.iter().any(|x| x == "--trace-runs");
+    let Some(scen) = lookup(scen_name) else {
+        eprintln!("unknown scenario {scen_name}");
+        std::process::exit(2);
+    };
+    let out = std::io::stdout();
+    let mut out = out.lock();
+    let mut fps: HashSet<u64> = HashSet::new();
+    let mut evals: u64 = 0;
+    let mut events: u64 = 0;
+    let mut viols: u64 = 0;
+    let mut foreign: u64 = 0;
+    let mut foreign_sample: Option<String> = None;
+    let mut samples: Vec<String> = Vec::new();
+    let mut digest: u64 = 0;
+    for run in from..from + count {
+        if trace_runs {
+            writeln!(out, "{{\"t\":\"start\",\"run\":{run}}}").unwrap();
+            out.flush().unwrap();
+        }
+        let ch = Choices::generate(run_seed(seed, prop, scen_name, run));
+        let want = samples.len() < 3 && (run - from) % 97 == 0;
+        let r = execute(prop, scen, tier, ch, false, want, run);
+        evals += r.evals.len() as u64;
+        events += r.events;
+        for (fp, nt) in &r.evals {
+            digest = mix(digest, *fp);
+            if *nt {
+                fps.insert(*fp);
+            }
+        }
+        if let Some(s) = r.sample {
+            samples.push(s);
+        }
+        if let Some(f) = r.foreign {
+            foreign += 1;
+            if foreign_sample.is_none() {
+                foreign_sample = Some(f);
+            }
+        }
+        if let Some(v) = r.violation {
+            viols += 1;
+            if viols <= 40 {
+                writeln!(
+                    out,
+                    "{{\"t\":\"viol\",\"run\":{run},\"class\":\"{}\",\"msg\":\"{}\",\"choices\":\"{}\"}}",
+                    json_escape(&v.class),
+                    json_escape(&v.msg),
+                    fmt_choices(&r.choices)
+                )
+                .unwrap();
+            }
+        }
+    }
+    // fingerprints to file
+    let mut buf = Vec::with_capacity(fps.len() * 8);
+    for f in &fps {
+        buf.extend_from_slice(&f.to_le_bytes());
+    }
+    std::fs::write(fpfile, buf).expect("write fp file");
+    let (faults, probes, notes) = monitor::STATS.with(|s| {
+        let s = s.borrow();
+        let f = s.faults.iter().map(|(k, v)| format!("\"{k}\":{v}")).collect::<Vec<_>>().join(",");
+        let p = s.probes.iter().map(|(k, v)| format!("\"{k}\":{v}")).collect::<Vec<_>>().join(",");
+        let n = s.notes.iter().map(|(k, v)| format!("\"{}\":{v}", json_escape(k))).collect::<Vec<_>>().join(",");
+        (f, p, n)
+    });
+    let samples_json = samples.iter().map(|s| format!("\"{}\"", json_escape(s))).collect::<Vec<_>>().join(",");
+    writeln!(
+        out,
+        "{{\"t\":\"sum\",\"runs\":{count},\"evals\":{evals},\"events\":{events},\"violations\":{viols},\"distinct\":{},\"digest\":\"{digest:016x}\",\"foreign\":{foreign},\"foreign_sample\":\"{}\",\"faults\":{{{faults}}},\"probes\":{{{probes}}},\"notes\":{{{notes}}},\"samples\":[{samples_json}]}}",
+        fps.len(),
+        json_escape(&foreign_sample.unwrap_or_default()),
+    )
+    .unwrap();
+}
+
+fn cmd_replay_gen(a: &[String]) {
+    let prop = &a[0];
+    let scen_name = &a[1];
+    let tier = parse_tier(&a[2]);
+    let seed: u64 = a[3].parse().unwrap();
+    let run: u64 = a[4].parse().unwrap();
+    let Some(scen) = lookup(scen_name) else {
+        eprintln!("unknown scenario {scen_name}");
+        std::process::exit(2);
+    };
+    let ch = Choices::generate(run_seed(seed, prop, scen_name, run));
+    let r = execute(prop, scen, tier, ch, true, true, run);
+    print_replay(r);
+}
+
+fn cmd_replay(a: &[String]) {
+    let prop = &a[0];
+    let scen_name = &a[1];
+    let tier = parse_tier(&a[2]);
+    let vals = read_choices(&a[3]);
+    let Some(scen) = lookup(scen_name) else {
+        eprintln!("unknown scenario {scen_name}");
+        std::process::exit(2);
+    };
+    let r = execute(prop, scen, tier, Choices::replay(vals), true, true, 0);
+    print_replay(r);
+}
+
+fn print_replay(r: RunResult) {
+    for l in &r.trace {
+        println!("TRACE {l}");
+    }
+    let lab = r
+        .labelled
+        .iter()
+        .map(|(l, n, v)| format!("[\"{l}\",{n},{v}]"))
+        .collect::<Vec<_>>()
+        .join(",");
+    println!("LABELLED [{lab}]");
+    match r.violation {
+        Some(v) => {
+            println!("RESULT {{\"violation\":true,\"class\":\"{}\",\"msg\":\"{}\"}}", json_escape(&v.class), json_escape(&v.msg));
+        }
+        None => println!("RESULT {{\"violation\":false}}"),
+    }
+}
+
+fn cmd_shrink(a: &[String]) {
+    let prop = &a[0];
+    let scen_name = &a[1];
+    let tier = parse_tier(&a[2]);
+    let vals = read_choices(&a[3]);
+    let budget: usize = a[4].parse().unwrap();
+    let Some(scen) = lookup(scen_name) else {
+        eprintln!("unknown scenario {scen_name}");
+        std::process::exit(2);
+    };
+    let (best, class, msg, tries) = minimize::shrink(prop, scen, tier, vals, budget);
+    println!(
+        "SHRUNK {{\"choices\":\"{}\",\"class\":\"{}\",\"msg\":\"{}\",\"tries\":{tries}}}",
+        fmt_choices(&best),
+        json_escape(&class),
+        json_escape(&msg)
+    );
+}
